@@ -152,11 +152,15 @@ def run():
     with vf.scratch(prefix="c16-") as sd:
         res = {}
 
+        walls = {}
+
         def stage(name, fn):
+            t0 = time.time()
             try:
                 res[name] = fn()
             except BaseException as ex:     # re-raised in the main thread
                 res[name] = ex
+            walls[name] = round(time.time() - t0)
 
         def build():
             ov = vf.make_overlay(sd, HARNESS)
@@ -167,11 +171,10 @@ def run():
         if not replay:
             jobs["gen"] = lambda: vf.tlc(SPEC, "SqlFormat_Gen", "SqlFormat_Gen.cfg" if thorough else "SqlFormat_Genq.cfg", sd, workers=2, timeout=2400)
             jobs["mc"] = lambda: vf.tlc(SPEC, "SqlFormat", "SqlFormat_MC.cfg" if thorough else "SqlFormat_MCq.cfg", sd, workers=2, timeout=2400)
-            negs = ["unary", "role", "denote"] if thorough else ["unary"]
-            for n in negs:
-                jobs["neg_" + n] = (lambda n=n: vf.tlc(SPEC, "SqlFormat", "SqlFormat_MC_asis_%s.cfg" % n, sd, workers=2, timeout=2400))
-            if not thorough:
-                jobs["neg_ident"] = lambda: vf.tlc(SPEC, "SqlFormat", "SqlFormat_MC_asis_ident.cfg", sd, workers=2, timeout=2400)
+            # quick: one negative control with the whole printer as on the unchanged tree; thorough: one per defect class
+            for n in (["unary", "role", "denote"] if thorough else ["all"]):
+                cfg = "SqlFormat_MC_asis.cfg" if n == "all" else "SqlFormat_MC_asis_%s.cfg" % n
+                jobs["neg_" + n] = (lambda cfg=cfg: vf.tlc(SPEC, "SqlFormat", cfg, sd, workers=2, timeout=2400))
         ths = [threading.Thread(target=stage, args=(n, f)) for n, f in jobs.items()]
         for t in ths:
             t.start()
@@ -181,7 +184,7 @@ def run():
             if isinstance(res[n], BaseException):
                 raise res[n]
         testbin = res["build"]
-        vf.log("C16 build+MC+neg+gen done %.0fs" % (time.time() - chk.t0))
+        vf.log("C16 build+MC+neg+gen done %.0fs %s" % (time.time() - chk.t0, walls))
 
         if replay:
             rr = json.load(open(replay))["replay"]["record"]
@@ -205,7 +208,8 @@ def run():
         # 1. the design satisfies the property on the model
         chk.add_tlc(vf.tlc_ok(res["mc"], "SqlFormat MC"), "MC design printer (%s expression bound)" % ("full" if thorough else "small"))
         # 2. negative controls (vacuity guards)
-        want = {"unary": {"RoundTrip"}, "role": {"KeepsRole"}, "denote": {"KeepsDenotation"}, "ident": {"KeepsRole", "KeepsExec", "KeepsDenotation"}}
+        want = {"unary": {"RoundTrip"}, "role": {"KeepsRole"}, "denote": {"KeepsDenotation"},
+                "all": {"RoundTrip", "KeepsRole", "KeepsExec", "KeepsDenotation"}}
         for n in jobs:
             if n.startswith("neg_"):
                 if res[n].violated not in want[n[4:]]:
@@ -276,7 +280,7 @@ def run():
         badidx = {b["idx"] for b in rep["bad"]}
         good = [r for n, r in enumerate(flat) if (n + 1) not in badidx and r["parsed"] and r["x1"]["ok"] and r["x2"]["ok"] and r["d"] == "sqlite"]
         goodpg = [r for n, r in enumerate(flat) if (n + 1) not in badidx and r["parsed"] and r["fam"] == "ident" and r["d"] == "pg"
-                  and r["cls"] in ("plain", "mixed-q", "space-q") and any(t["t"] == r["name"] for t in r["toks2"])]
+                  and r["cls"] == "mixed-q" and any(t["t"] == r["name"] and t["q"] for t in r["toks2"])]
         if len(good) < 4 or not goodpg:
             raise vf.NoVerdict("self-test: no accepted records to corrupt")
         a, b, c, d = rng.sample(good, 4)
